@@ -402,6 +402,7 @@ func sortedKeys[V any](m map[string]V) []string {
 // capturePreEnd remembers the balances of every account the oracles care about just before EndBlock.
 func (w *World) capturePreEnd() {
 	st := w.ReadState()
+	w.preEndTokens = st.TokenInfos()
 	w.preEndHolders = st.OracleHolders() // the holder list in force while this block's events are applied (the oracle module ends its block after the bridge)
 	w.preEndBal = map[string]sdk.Int{}
 	accs := []sdk.AccAddress{}
